@@ -42,7 +42,7 @@ def _setup():
     return lcg, shadow.torch()
 
 
-def _run(br: int, precond: bool, with_guess: bool):
+def _run(br: int, precond: bool, with_guess: bool, shard=None, cover_only=False):
     lcg, torch = _setup()
     from engine import loopcut, symops as O, symtensor as T
     from engine.symtensor import SymTensor
@@ -78,6 +78,8 @@ def _run(br: int, precond: bool, with_guess: bool):
             c = sym.ctx()
             res, x, bhat = env["residual"], env["result"], env["rhs"]
             goals = [("shapes", z3.BoolVal(len(res.shape) == len(x.shape) and all(O.dim_eq(p, q) for p, q in zip(res.shape, x.shape))))]
+            if cover_only:
+                return goals
             b, i, cc = idx_vars(c, "inv", len(res.shape) - 2)
             sym.instantiate_universals(b + (i, cc), key="cg:inv")
             goals.append(("residual = bhat - A result", self._inv(env, b, i, cc)))
@@ -147,6 +149,8 @@ def _run(br: int, precond: bool, with_guess: bool):
         return cut_fn(A, rhs, n_tridiag=0, tolerance=tol, eps=eps, stop_updating_after=sua, max_iter=max_iter, max_tridiag_iter=max_tri, **kw)
 
     def post(c, outcome, value):
+        if cover_only:
+            return
         A, rhs, a = state["A"], state["rhs"], state["args"]
         writes = [e for e in c.events if e[0] == "inplace" and str(e[1]["owner"]).startswith("caller")]
         c.prove(f"{base}/frame/arguments-untouched", z3.BoolVal(not writes), kind="frame", info=[e[1] for e in writes][:3])
@@ -196,7 +200,7 @@ def _run(br: int, precond: bool, with_guess: bool):
         c.prove(f"{base}/return/at-most-one-warning", z3.BoolVal(len(nw) <= 1))
 
     try:
-        paths = sym.explore(thunk, post=post, max_paths=256, timeout_ms=10000)
+        paths = sym.explore(thunk, post=post, max_paths=256, timeout_ms=10000, prefix0=shard)
     finally:
         O.SQRT_SQUARE_AXIOM[0] = True
     out, kinds = [], {}
@@ -210,8 +214,11 @@ def _run(br: int, precond: bool, with_guess: bool):
                 d["model"], d["smt2"], d["reason"] = o.get("model"), o.get("smt2"), o.get("reason")
                 d["replay"] = {"module": "contracts.sh_C08", "func": "replay", "args": [precond, with_guess]}
             out.append(d)
-    for need in ("return", "raise", "cut"):
-        out.append(ob(f"{base}/cover/{need}-path-reachable", DISCHARGED if kinds.get(need) else REFUTED, by="explorer", info=kinds))
+    if shard is None:
+        for need in ("return", "raise", "cut"):
+            out.append(ob(f"{base}/cover/{need}-path-reachable", DISCHARGED if kinds.get(need) else REFUTED, by="explorer", info=kinds))
+    else:  # the three kinds of outcome must be reachable over all shards together: each shard reports what it saw, check_cover() adds them up
+        out.append(ob(f"{base}/shard{''.join('1' if x else '0' for x in shard)}/explored", DISCHARGED if paths else REFUTED, by="explorer", info=kinds))
     merged = {}
     for o in out:
         m = merged.get(o["name"])
@@ -220,8 +227,14 @@ def _run(br: int, precond: bool, with_guess: bool):
     return list(merged.values())
 
 
-def check(br, precond, with_guess):
-    return _run(br, precond, with_guess)
+def check(br, precond, with_guess, shard=None):
+    return _run(br, precond, with_guess, shard)
+
+
+def check_cover(br, precond, with_guess):
+    """vacuity guard for the sharded exploration: with a trivially cheap post (no obligations) walk the whole path tree and
+    require that return, raise and loop-body (cut) paths all exist"""
+    return [o for o in _run(br, precond, with_guess, None, cover_only=True) if "/cover/" in o["name"]]
 
 
 def replay(precond, with_guess):
@@ -272,10 +285,12 @@ def replay(precond, with_guess):
 
 def shadow_units(tier):
     us = [conformance_unit(PID)]
+    shards = [[a, b, d] for a in (True, False) for b in (True, False) for d in (True, False)]  # the path tree is split over 8 processes by its first three forks
     for br in ((0,) if tier == "quick" else (0, 1)):
         for precond, guess in (((False, False), (True, True)) if tier == "quick" else ((False, False), (False, True), (True, False), (True, True))):
-            if True:
-                us.append(Unit(f"C08/shadow/linear_cg/br={br}/precond={precond}/guess={guess}", "contracts.sh_C08", "check", (br, precond, guess), engine="loopcut", timeout_s=900))
+            us.append(Unit(f"C08/shadow/linear_cg/br={br}/precond={precond}/guess={guess}/cover", "contracts.sh_C08", "check_cover", (br, precond, guess), engine="loopcut", timeout_s=600))
+            for sh in shards:
+                us.append(Unit(f"C08/shadow/linear_cg/br={br}/precond={precond}/guess={guess}/shard={''.join('1' if x else '0' for x in sh)}", "contracts.sh_C08", "check", (br, precond, guess, sh), engine="loopcut", timeout_s=900))
     return us
 
 
